@@ -45,7 +45,7 @@ func c01Setup(rc *RunCtx) simrt.Config {
 	r := rc.R
 	cfg, sname := drawSimConfig(r, 30000)
 	c := &c01cfg{}
-	c.kind = TransportKind(r.Choose(6))
+	c.kind = TransportKind(r.Choose(8))
 	c.callers = 1 + r.Choose(8)
 	for i := 0; i < c.callers; i++ {
 		c.perCall = append(c.perCall, 1+r.Choose(6))
@@ -123,6 +123,8 @@ func c01Main(rc *RunCtx) {
 	serve := w.Serve(ServerOpts{Plan: plan})
 	rc.Net.Handle("udp", srvAddr, serve)
 	rc.Net.Handle("tcp", srvAddr, serve)
+	rc.Net.Handle("udp", dohAddr, serve)
+	rc.Net.Handle("tcp", doqAddr, serve)
 
 	var u upstream.Upstream
 	var dcs []*transport.TraditionalDnsConn
